@@ -33,7 +33,7 @@ def tokenize(lines):
         ),
         ("INT", r"\-?\d+"),
         ("STRING", r"'[^']*'"),
-        ("ID", r"[A-Za-z][A-Za-z\d_]*"),
+        ("ID", r"[A-Za-z_][A-Za-z\d_]*"),
         ("SKIP", r"\s+"),
         (
             "OTHER",
